@@ -98,6 +98,13 @@ MUT = [
         "        self.clear()\n        if value is None:\n            value_str = \"\"", "        if value is None:\n            value_str = \"\"")]),
     ("C06", "set_value_and_type: office:currency not removed (visible only over a currency cell through the raw call)", True, [(ET,
         '            "office:currency",\n            "calcext:value-type",', '            "calcext:value-type",')]),
+    ("C06", "currency cells: office:currency not written", True, [(ET,
+        '            self.set_attribute("office:value", value)\n            self.set_attribute("office:currency", currency)\n', '            self.set_attribute("office:value", value)\n')]),
+    ("C06", "get_value(get_type=True) reports float for percentage and currency", True, [(ET,
+        "            with contextlib.suppress(ValueError):\n                if int(value) == value:\n                    return (int(value), value_type)\n            return (value, value_type)",
+        "            with contextlib.suppress(ValueError):\n                if int(value) == value:\n                    return (int(value), \"float\")\n            return (value, \"float\")")]),
+    ("C06", "Row.set_value writes a cell repeated twice (a neighbour of the addressed cell changes)", True, [(S + "row.py",
+        "            Cell(value, style=style, cell_type=cell_type, currency=currency),\n", "            Cell(value, style=style, cell_type=cell_type, currency=currency, repeated=2),\n")]),
     ("C06", "REWRITE Cell.set_value without clear() (the removal list of set_value_and_type does the work)", False, [(CELL,
         "        self.clear()\n        text = self.set_value_and_type(", "        text = self.set_value_and_type(")]),
     ("C06", "REWRITE str branch moved before datetime in set_value_and_type; set literal as tuple in Cell.value", False, [
